@@ -663,7 +663,7 @@ TEMPORAL_VALUES = {"date": ["2020-01-31", "1999-12-01", "2024-02-29"], "time": [
 
 
 def _temporal_field(kind):
-    from typedpy import DateField, TimeField, DateTime
+    from typedpy.extfields.extfields import DateField, TimeField, DateTime
     return {"date": DateField, "time": TimeField, "datetime": DateTime}[kind]()
 
 
